@@ -9,3 +9,7 @@ import LyModel.Props.C05JsonNum
 #print axioms LyModel.Props.C05.f14_witness_fixed
 #print axioms LyModel.Props.C05.f14_witness2_fixed
 #print axioms LyModel.Props.C05.json_number_value_at_f14_witnesses_fixed
+#print axioms LyModel.Props.C05.json_number_value_partial
+#print axioms LyModel.Props.C05.json_number_value_fixed
+#print axioms LyModel.Props.C05.json_number_value_iff_fixed
+#print axioms LyModel.Props.C05.json_number_no_syntax_error
